@@ -116,7 +116,7 @@ enum Expect {
 
 const SERVING_WORDS: &[&str] = &["", " servings", " cups worth", " big", " small ones", "-ish"];
 const TAG_POOL: &[&str] = &["vegan", "quick", "", "2022", "gluten free", "vegan", " spicy ", "a"];
-const BAD_TIMES: &[&str] = &["soon", "1hour30min", "5 parsecs", "-5", "inf", "nan", "1e20", "4294967296", "99999999h", "1h4294967295m", "71582789h", "1 h 4294967295 min", "h", "10 min 5", "1.5.2 h", "1h30", "٣ h"];
+const BAD_TIMES: &[&str] = &["soon", "1hour30min", "5 parsecs", "-5", "inf", "nan", "1e20", "4294967296", "99999999h", "1h4294967295m", "71582789h", "1 h 4294967295 min", "h", "10 min 5", "1.5.2 h", "1h30", "٣ h", "1h -30min", "+5 min", "2 hours -30 min", "-1 min 2 min", "1 h +5 min", "1e2 min", "0x10 min"];
 const BAD_SERVINGS: &[&str] = &["many", "2|2", "1|2|1", "x2", "-3", "4294967296", "|", "3 | many"];
 const LOCALES: &[&str] = &["en", "es_ES", "en_gb", "DE", "pt_BR"];
 const BAD_LOCALES: &[&str] = &["english", "e", "en-GB", "en_GBR", "e1", "en_", "_GB", "ça", "en_G1"];
